@@ -9,6 +9,8 @@ parameter, as a function of its list of length candidates -> coq/Gen/GenDynRoom.
 Emits   array_room (sizes : list Z) : Z  :=  E1       (number of symbolic elements)
         bytes_room (sizes : list Z) : Z  :=  E2       (number of symbolic bytes before padding)
         bytes_room_padded (sizes)        :=  the regenerated padding expression over bytes_room
+        value_symbol_uid_fresh / length_symbol_uid_fresh : bool   is the uid part of the z3 constant's name a uid() call
+                                                                  made for this very symbol
         sizes_are_sorted_by_halmos : bool             (does get_dyn_sizes sort / normalise the candidate list)
 The expressions over `sizes` may be max(sizes), min(sizes), sizes[k] for an integer literal k (negative from the
 end), len(sizes), integer arithmetic over these.  The candidate list itself comes verbatim from the options
@@ -47,6 +49,24 @@ def _expr(node, local, var="sizes"):
         if op:
             return f"({op} {_expr(node.left, local, var)} {_expr(node.right, local, var)})"
     raise TranslateError(f"Calldata.encode: unsupported size expression {ast.unparse(node)!r}")
+
+
+def _symbol_parts(node, what):
+    """f"p_{name}_..._{<uid part>}_{self.new_symbol_id():>02}" -> (is the uid part a fresh `uid()` call, does the text carry `name`,
+    does it carry the per-calldata counter new_symbol_id)"""
+    if not isinstance(node, ast.JoinedStr):
+        raise TranslateError(f"{what}: the symbol name is not an f-string")
+    vals = [ast.unparse(v.value) for v in node.values if isinstance(v, ast.FormattedValue)]
+    lits = "".join(v.value for v in node.values if isinstance(v, ast.Constant))
+    if not lits.startswith("p_"):
+        raise TranslateError(f"{what}: symbol names are expected to start with p_")
+    known = {"name", "typ.typ", "uid()", "self.new_symbol_id()"}
+    unknown = [v for v in vals if v not in known]
+    fresh = "uid()" in vals
+    if unknown and fresh:
+        raise TranslateError(f"{what}: unexpected component(s) {unknown} in the symbol name")
+    # anything else than a direct uid() call (an attribute computed once, a constant ...) is NOT fresh per symbol
+    return fresh, "name" in vals, "self.new_symbol_id()" in vals
 
 
 def translate(src_text):
@@ -111,6 +131,19 @@ def translate(src_text):
     tail = [ast.unparse(s) for s in bb[3:]]
     if tail != [f"data = [BitVec(new_symbol, 8 * {pd})] if {sz} > 0 else []", f"return EncodingResult([{bv[1]}] + data, 32 + {pd}, False)"]:
         raise TranslateError(f"Calldata.encode: bytes arm: unexpected tail {tail}")
+    # the names of the z3 constants: value symbols (encode, BaseType arm) and length symbols (get_dyn_sizes)
+    ns = [n for n in ast.walk(enc) if isinstance(n, ast.Assign) and ast.unparse(n.targets[0]) == "new_symbol"]
+    if len(ns) != 1:
+        raise TranslateError("Calldata.encode: expected exactly one `new_symbol = f\"p_...\"`")
+    uses = [n for n in ast.walk(enc) if isinstance(n, ast.Call) and ast.unparse(n.func) == "BitVec"]
+    if not uses or any(ast.unparse(u.args[0]) != "new_symbol" for u in uses):
+        raise TranslateError("Calldata.encode: a BitVec is created from something else than new_symbol")
+    val_fresh, val_name, val_sid = _symbol_parts(ns[0].value, "Calldata.encode")
+    ls = [n for n in ast.walk(gds) if isinstance(n, ast.Call) and ast.unparse(n.func) == "BitVec"]
+    if len(ls) != 1:
+        raise TranslateError("get_dyn_sizes: expected exactly one BitVec(...) (the length symbol)")
+    len_fresh, len_name, len_sid = _symbol_parts(ls[0].args[0], "get_dyn_sizes")
+    b = lambda x: "true" if x else "false"  # noqa: E731
     lines = [
         "(* GENERATED by translate/t_dynroom.py from Calldata.encode / get_dyn_sizes in src/halmos/calldata.py -- do not edit *)",
         "From Coq Require Import ZArith List.",
@@ -132,6 +165,11 @@ def translate(src_text):
         "",
         "Definition bytes_room_padded (sizes : list Z) : Z :=",
         f"  {padded}.",
+        "",
+        "(* the name of the z3 constant of a parameter value / of a dynamic length: does it contain a uid() drawn for",
+        "   THIS symbol (else: whatever stands there is the same for all symbols of the calldata) *)",
+        f"Definition value_symbol_uid_fresh : bool := {b(val_fresh)}.",
+        f"Definition length_symbol_uid_fresh : bool := {b(len_fresh)}.",
         "",
     ]
     return "\n".join(lines), {"array_room": array_room, "bytes_room": bytes_room}
